@@ -60,7 +60,7 @@ func run(c *vf.Ctx) {
 		x.Run()
 		x.Report(n + "/")
 	}
-	c.RequireFeature("attack_rejected", "control_accepted", "attack:same-block", "attack:same-block-after-revision", "attack:same-tx", "attack:next-block-stale", "attack:next-block-updated", "attack:next-block-ephemeral", "attack:reorg",
+	c.RequireFeature("attack_rejected", "control_accepted", "attack:same-block", "attack:same-block-after-revision", "attack:same-tx", "attack:next-block-stale", "attack:next-block-updated", "attack:next-block-ephemeral", "attack:same-block-alias", "attack:reorg",
 		"kind:sc-v1addr", "kind:sc-v2addr", "kind:sc-nosig", "kind:sf-nosig", "kind:sf", "kind:fc", "kind:v2fc", "kind:ephemeral")
 	c.Assume("every attack block is built by the harness' own builder: correct parent, timestamp, commitment/Merkle root, miner payout and nonce; the control experiment (same block without the second use) must be accepted, so an attack cannot be rejected merely for being badly sealed")
 }
@@ -449,6 +449,37 @@ func ephemeral(c *vf.Ctx, x *chain.Explorer, w *chain.World, path []string, v1ok
 	}
 	if v2ok {
 		vs = append(vs, variant{"v2->v2,v2", "v2", "v2", "v2"})
+	}
+	// second use under another NAME: a v1 transaction spends an output and forms a contract; a later v1 transaction of the
+	// block names the CONTRACT's id (and every other id the first transaction touched) as its siacoin parent and spends
+	// the value of the first transaction's input again
+	if v1ok {
+		bcA := w.NewBlockCtx()
+		if chain.V1FormAbs(h+3, h+5, 100).Do(bcA) && len(bcA.V1) == 1 && len(bcA.V1[0].SiacoinInputs) == 1 {
+			t1 := bcA.V1[0]
+			in := t1.SiacoinInputs[0]
+			if pe, ok := w.Store.SC[in.ParentID]; ok {
+				names := map[string]types.Hash256{"file contract": types.Hash256(t1.FileContractID(0))}
+				for i := range t1.SiacoinOutputs {
+					names[fmt.Sprintf("siacoin output %d", i)] = types.Hash256(t1.SiacoinOutputID(i))
+				}
+				for name, id := range names {
+					t2 := types.Transaction{SiacoinInputs: []types.SiacoinInput{{ParentID: types.SiacoinOutputID(id), UnlockConditions: in.UnlockConditions}},
+						SiacoinOutputs: []types.SiacoinOutput{{Value: pe.SiacoinOutput.Value, Address: w.Keys.Addr(chain.AddrV1b)}}}
+					w.SignV1Whole(&t2)
+					c.Count("attack:same-block-alias", 1)
+					c.Distinct(w.Spec.Name, h, "alias", name)
+					b, bs := w.BuildBlock([]types.Transaction{t1, t2}, nil, chain.BlockOpts{})
+					if ok, p := accept(x, w, b, bs); p != nil {
+						x.Violate("attack|panic|alias", fmt.Sprintf("ValidateBlock panicked when a v1 input named the id of the %s of the previous transaction: %v", name, p), path)
+					} else if ok {
+						x.Violate("second-use-accepted|alias|"+name, fmt.Sprintf("the siacoin input of a v1 transaction was spent AGAIN by the next transaction of the block under the id of that transaction's %s: ACCEPTED at height %d", name, h), path)
+					} else {
+						c.Count("attack_rejected", 1)
+					}
+				}
+			}
+		}
 	}
 	for _, v := range vs {
 		var creator chain.Use
